@@ -65,6 +65,13 @@ class RefScaler:
     def __init__(self, scale):
         self.scale = scale
         self.vals = []
+        self.kappa = 0.0
+
+    def noise(self):
+        """relative float32 round-off of the library's running std for the history seen so far: the running (Welford)
+        update cancels |mean| against the spread, so its relative error grows like eps32 * (|values| / std)^2; a
+        history with |mean| >> std (advantages of a nearly constant critic) is ill-conditioned, not wrong"""
+        return 1.2e-7 * self.kappa * self.kappa
 
     def __call__(self, adv):
         if self.scale is None:
@@ -76,6 +83,8 @@ class RefScaler:
         mean = sum(self.vals) / n
         std = math.sqrt(sum((v - mean) ** 2 for v in self.vals) / (n - 1)) if n > 1 else float("nan")
         eps = torch.finfo(adv.dtype).eps
+        if n > 1 and std > 0:
+            self.kappa = (abs(mean) + max(abs(v - mean) for v in self.vals)) / std
         if self.scale == "norm":
             return (adv - mean) / (std + eps)
         return adv / (std + eps)
@@ -171,11 +180,15 @@ def unit_reinforce(item):
             continue
         ref_loss = -(adv * ll).mean() + bl_loss_ref
         lib_loss = res["loss"]
-        if abs(float(lib_loss) - float(ref_loss)) > 1e-5 * (1 + abs(float(ref_loss))):
+        nz = ref_scaler.noise()
+        if nz > 1e-2:
+            p.add(ill_conditioned_scaling=1)  # |mean| / std of the advantages beyond ~300: float32 cannot resolve the std
+            continue
+        if abs(float(lib_loss) - float(ref_loss)) > (1e-5 + nz) * (1 + abs(float(ref_loss))):
             p.violation(sig(env_name, cfg, "loss", f"step={step}"), rec, f"REINFORCE({bname}, scale={scale}) B={B} step {step}: loss {float(lib_loss)} vs reference surrogate {float(ref_loss)}")
             continue
         num, den = grad_diff(grads(lib_loss, params), grads(ref_loss, params))
-        if num > 1e-5 + 1e-4 * den:
+        if num > 1e-5 + (1e-4 + nz) * den:
             p.violation(sig(env_name, cfg, "policy_gradient", f"step={step}"), rec, f"REINFORCE({bname}, scale={scale}) B={B} step {step}: policy gradient differs from the reference surrogate's (max abs diff {num}, scale {den})")
         if cparams:
             num, den = grad_diff(grads(lib_loss, cparams), grads(ref_loss, cparams))
@@ -233,11 +246,15 @@ def unit_pomo(item):
         bl = out["bl_val"]
         if isinstance(bl, torch.Tensor) and tuple(bl.shape) not in ((B, 1), (B, S)):
             p.violation(sig(env_name, cfg, "baseline_shape", f"step={step}"), rec, f"POMO: shared baseline has shape {tuple(bl.shape)} for B={B}, S={S}")
-        if abs(float(out["loss"]) - float(ref_loss)) > 1e-5 * (1 + abs(float(ref_loss))):
+        nz = ref_scaler.noise()
+        if nz > 1e-2:
+            p.add(ill_conditioned_scaling=1)
+            continue
+        if abs(float(out["loss"]) - float(ref_loss)) > (1e-5 + nz) * (1 + abs(float(ref_loss))):
             p.violation(sig(env_name, cfg, "loss", f"step={step}"), rec, f"POMO B={B} S={S}: loss {float(out['loss'])} vs shared-baseline reference {float(ref_loss)} (baseline = mean over the {S} starts of each instance)")
             continue
         num, den = grad_diff(grads(out["loss"], params), grads(ref_loss, params))
-        if num > 1e-5 + 1e-4 * den:
+        if num > 1e-5 + (1e-4 + nz) * den:
             p.violation(sig(env_name, cfg, "policy_gradient", f"step={step}"), rec, f"POMO B={B} S={S}: policy gradient differs from the reference (max abs diff {num})")
         p.outcome(f"{cfg}|{round(float(ref_loss), 4)}")
     p.sample(dict(part="pomo", env=skey, batch=ids, num_starts=S), cap=1)
